@@ -330,8 +330,17 @@ def linked_dv(col, seed, n):
                 node = nm[lead]
                 v = rnd.randrange(len(node['options'])) if 'options' in node else \
                     node['bounds'][0] + rnd.random() * (node['bounds'][1] - node['bounds'][0])
+                if 'options' not in node and rnd.random() < .4:
+                    # a value outside the bounds is clamped: the linked nodes follow the CLAMPED value
+                    span = node['bounds'][1] - node['bounds'][0]
+                    v_raw = rnd.choice([node['bounds'][0] - .3 * span, node['bounds'][1] + .5 * span,
+                                        node['bounds'][1] + 1e-3 * span])
+                    col.count('monitor_linked_dv_out_of_bounds')
+                    g.set_des_var_value(b.node[lead], v_raw)
+                    v = min(max(v_raw, node['bounds'][0]), node['bounds'][1])
+                else:
+                    g.set_des_var_value(b.node[lead], v)
                 col.count('monitor_linked_dv_evaluations')
-                g.set_des_var_value(b.node[lead], v)
                 vals = {b.name(k): val for k, val in g.des_var_values.items()}
                 for other in grp:
                     on = nm[other]
